@@ -54,7 +54,7 @@ def cell(kind, i, j, specs=None):
     if kind == 'bool':
         return _BOOL[(i + j) % MAX_ROWS]
     if kind == 'optfloat':
-        return _OPTFLOAT[i]
+        return norm(_OPTFLOAT[i])
     if kind == 'intlist':
         return tuple(x + j for x in _INTLIST[i])
     return {'strlist': _STRLIST, 'dna': _DNA, 'strand': _STRAND, 'qual': _QUAL, 'cigar_op': _CIGAR_OP, 'cigar_len': _CIGAR_LEN,
@@ -127,6 +127,9 @@ ALPHABET_ORDER = {'strand': '+-.'}
 def sort_keys(kind, values):
     """list of admissible key functions for 'sorted by this column' (the statement does not say whether an encoded
     column sorts by letter or by code: both are accepted)"""
+    if any(v == 'nan' for v in values):
+        # NaN has no place in the order: accepted first or last (NumPy puts it last)
+        return [lambda v: float('inf') if v == 'nan' else v, lambda v: float('-inf') if v == 'nan' else v]
     keys = [lambda v: v]
     if kind in ALPHABET_ORDER:
         order = ALPHABET_ORDER[kind]
@@ -138,7 +141,7 @@ def sort_verdict(before, after, j, kind):
     """None if `after` is a permutation of `before` whose column j is non-decreasing, else a reason string"""
     if len(after) != len(before):
         return 'row count changed'
-    if sorted(map(repr, before)) != sorted(map(repr, after)):
+    if sorted(repr(norm(r)) for r in before) != sorted(repr(norm(r)) for r in after):
         return 'rows are not a permutation of the operand rows'
     col = [r[j] for r in after]
     for key in sort_keys(kind, col):
